@@ -398,6 +398,10 @@ func TestVerifC09Mgr(t *testing.T) {
 		}
 	}
 	verifVolumeFaults(t, em, caseID)
+	verifIndexFaults(t, em, caseID+100, 1)
+	if verifN(2) > 2 {
+		verifIndexFaults(t, em, caseID+101, 3)
+	}
 }
 
 // ---- storage.VolumeManager: real volume files; monitors only (the background
@@ -456,10 +460,19 @@ func verifVolumeFaults(t *testing.T, em *verifEmitter, id int) {
 				em.Count("volume-fault-tolerated:AddVolume")
 				continue
 			}
+			// registering the volume is the all-or-nothing part; once it is registered the
+			// asynchronous initialisation progresses in batches by design
+			registered := strings.Contains(after, path)
+			if registered {
+				em.Count("volume-fault-after-registration:AddVolume")
+				continue
+			}
+			if after != before {
+				em.Monitor("failed-call-changed-state:storage.VolumeManager.AddVolume", fmt.Sprintf("k=%d (%v): before %s after %s", k, err, before, after))
+			}
 			// a failed AddVolume, retried with the same arguments
-			err2 := addVolume(n, path, 3)
-			if err2 != nil {
-				em.Monitor("retry-after-fault-failed:storage.VolumeManager.AddVolume", fmt.Sprintf("k=%d: AddVolume failed with %q, the retry with the same path fails with %q (state before %s, after the failed call %s)", k, err, err2, before, after))
+			if err2 := addVolume(n, path, 3); err2 != nil {
+				em.Monitor("retry-after-fault-failed:storage.VolumeManager.AddVolume", fmt.Sprintf("k=%d: AddVolume failed with %q before the volume was registered; the retry with the same path fails with %q", k, err, err2))
 			}
 		}
 		n.Close()
@@ -467,4 +480,211 @@ func verifVolumeFaults(t *testing.T, em *verifEmitter, id int) {
 	}
 	_ = bytes.Compare
 	_ = webhooks.ScopeAll
+}
+
+// ---- index.Manager on a real chain: a batch of chain updates changes wallet,
+// contracts, announcement and the processed-tip marker together or not at all, the
+// in-memory tip follows the marker, and after the failure the indexer (in-process or
+// after a restart) converges to the state of a twin host that never saw a fault.
+
+func verifQuiesce(ctl *verifFaultCtl, d time.Duration) {
+	last, stable := -1, 0
+	deadline := time.Now().Add(d)
+	for time.Now().Before(deadline) {
+		ctl.mu.Lock()
+		n := len(ctl.trace)
+		ctl.mu.Unlock()
+		if n == last {
+			stable++
+			if stable >= 25 {
+				return
+			}
+		} else {
+			last, stable = n, 0
+		}
+		time.Sleep(time.Millisecond)
+	}
+}
+
+func verifIndexFaults(t *testing.T, em *verifEmitter, id int, batch int) {
+	if em.Skip(id) {
+		return
+	}
+	em.BeginCase(id, fmt.Sprintf("index.Manager.syncDB with the k-th database call failing (batch size %d)", batch))
+	dir := t.TempDir()
+	hostKey := types.NewPrivateKeyFromSeed(bytes.Repeat([]byte{7}, 32))
+	addr := types.StandardUnlockHash(hostKey.PublicKey())
+	cm, _ := verifNewChain(t, false)
+	env := &verifEnv{hostKey: hostKey}
+	open := func(name string) *verifNode {
+		d := filepath.Join(dir, name)
+		os.MkdirAll(d, 0o755)
+		return verifOpenNode(t, d, hostKey, cm, true, batch)
+	}
+	a, b := open("a"), open("b")
+	defer func() { a.Close(); b.Close() }()
+	sync := func(what string) bool {
+		if !a.waitSynced(t, 10*time.Second) {
+			em.Monitor("indexer-does-not-converge", fmt.Sprintf("%s: index tip %v, chain tip %v, store tip %v", what, a.index.Tip(), cm.Tip(), verifTip(a.store)))
+			return false
+		}
+		if !b.waitSynced(t, 10*time.Second) {
+			t.Fatalf("%s: twin does not sync", what)
+		}
+		verifQuiesce(a.ctl, time.Second)
+		return true
+	}
+	// the host earns block rewards, they mature, and it announces itself
+	verifMine(t, cm, addr, 8)
+	if !sync("initial") {
+		return
+	}
+	if err := a.settings.Announce(); err != nil {
+		t.Log("announce:", err)
+	}
+	verifMine(t, cm, addr, 2)
+	if !sync("announcement") {
+		return
+	}
+	cmp := func(what string) {
+		sa := verifSnapshot(t, a.store, a.path, env, true)
+		sb := verifSnapshot(t, b.store, b.path, env, true)
+		// the host key differs per database; everything else is a function of the chain
+		if d := verifChainDiff(sa, sb); d != "" {
+			em.Monitor("resume-diverges-from-uninterrupted-run", what+": "+d)
+		}
+		if st := verifTip(a.store); st != a.index.Tip() {
+			em.Monitor("index-tip-differs-from-store", fmt.Sprintf("%s: index %v store %v", what, a.index.Tip(), st))
+		}
+	}
+	cmp("before the faults")
+	for k := 0; k < 400; k++ {
+		pre := verifSnapshot(t, a.store, a.path, env, false)
+		preTip := verifTip(a.store)
+		// the first blocks pay the host (its outputs are created, mature and are re-proved
+		// in later batches); later blocks pay nobody so that a batch stays the same size
+		payee := types.VoidAddress
+		if k < 6 {
+			payee = addr
+		}
+		a.ctl.Arm(k, verifFaultHard)
+		verifMine(t, cm, payee, 1)
+		// wait for the fault (or for the sync to complete without reaching call k)
+		deadline := time.Now().Add(5 * time.Second)
+		for time.Now().Before(deadline) {
+			a.ctl.mu.Lock()
+			fired := a.ctl.fired
+			a.ctl.mu.Unlock()
+			if fired || a.index.Tip() == cm.Tip() {
+				break
+			}
+			time.Sleep(time.Millisecond)
+		}
+		verifQuiesce(a.ctl, time.Second)
+		trace, _, fired := a.ctl.Disarm()
+		em.Count("index-fault")
+		if os.Getenv("VERIF_DEBUG") != "" && (k < 3 || k%50 == 0) {
+			t.Logf("index k=%d fired=%v trace=%s", k, fired, trace)
+		}
+		if !fired {
+			em.Count(fmt.Sprintf("index-sync-calls:%d", k))
+			sync("last")
+			cmp("after the last block")
+			verifIndexPostCommit(t, em, a, b, cm, func(to types.Address) { verifMine(t, cm, to, 1) }, addr, sync, cmp)
+			break
+		}
+		inTxn := !strings.Contains(trace[:strings.IndexAny(trace, "bpxc")], "C")
+		post := verifSnapshot(t, a.store, a.path, env, false)
+		if inTxn {
+			em.Count("index-fault:in-batch")
+			if d := pre.diff(post); d != "" {
+				em.Monitor("failed-batch-changed-state:index.Manager.syncDB", fmt.Sprintf("k=%d trace %s: %s", k, trace, d))
+			}
+			if st := verifTip(a.store); st != preTip {
+				em.Monitor("failed-batch-moved-marker:index.Manager.syncDB", fmt.Sprintf("k=%d: marker %v -> %v", k, preTip, st))
+			}
+		} else {
+			em.Count("index-fault:after-commit")
+		}
+		if st := verifTip(a.store); st != a.index.Tip() {
+			em.Monitor("index-tip-differs-from-store-after-failed-sync", fmt.Sprintf("k=%d (trace %s): the store's marker is %v, the index manager's tip %v", k, trace, st, a.index.Tip()))
+		}
+		// resume: in-process (the next block triggers a sync) or after a restart
+		if k%2 == 1 {
+			a.Close()
+			a = open("a")
+			em.Count("index-resume:restart")
+		} else {
+			em.Count("index-resume:in-process")
+		}
+		verifMine(t, cm, types.VoidAddress, 1)
+		if !sync(fmt.Sprintf("resume after fault k=%d", k)) {
+			return
+		}
+		cmp(fmt.Sprintf("after the fault at k=%d (trace %s) and the resume", k, trace))
+	}
+}
+
+// verifIndexPostCommit: the fault hits one of the calls syncDB makes after the batch
+// was committed, in a block that pays the host (re-applying it is not idempotent).
+func verifIndexPostCommit(t *testing.T, em *verifEmitter, a, b *verifNode, cm interface{ Tip() types.ChainIndex }, mine func(types.Address), addr types.Address, sync func(string) bool, cmp func(string)) {
+	for j := 0; j < 40; j++ {
+		a.ctl.ArmAfterCommit(j)
+		mine(addr)
+		deadline := time.Now().Add(5 * time.Second)
+		for time.Now().Before(deadline) {
+			a.ctl.mu.Lock()
+			fired := a.ctl.fired
+			a.ctl.mu.Unlock()
+			if fired || a.index.Tip() == cm.Tip() {
+				break
+			}
+			time.Sleep(time.Millisecond)
+		}
+		verifQuiesce(a.ctl, time.Second)
+		trace, _, fired := a.ctl.Disarm()
+		if !fired {
+			sync("post-commit: last")
+			return
+		}
+		em.Count("index-fault:after-commit-paid-block")
+		if st := verifTip(a.store); st != a.index.Tip() {
+			em.Monitor("index-tip-differs-from-store-after-failed-sync", fmt.Sprintf("post-commit call %d (trace %s): the store's marker is %v, the index manager's tip %v", j, trace, st, a.index.Tip()))
+		}
+		mine(types.VoidAddress)
+		if !sync(fmt.Sprintf("resume after post-commit fault %d", j)) {
+			return
+		}
+		cmp(fmt.Sprintf("after the fault at post-commit call %d (trace %s) and the in-process resume", j, trace))
+	}
+}
+
+func verifTip(s *Store) types.ChainIndex {
+	tip, _ := s.Tip()
+	return tip
+}
+
+// verifChainDiff compares two hosts that followed the same chain: settings revision,
+// host key and peers are per-host, everything derived from the chain must be equal.
+func verifChainDiff(a, b verifSnap) string {
+	keep := func(s string) string {
+		var out []string
+		for _, l := range strings.Split(s, "\n") {
+			if strings.HasPrefix(l, "global_settings|") {
+				// drop the host key column
+				parts := strings.Split(l, "|")
+				var kept []string
+				for _, p := range parts {
+					if !strings.HasPrefix(p, "host_key=") {
+						kept = append(kept, p)
+					}
+				}
+				l = strings.Join(kept, "|")
+			}
+			out = append(out, l)
+		}
+		return strings.Join(out, "\n")
+	}
+	a.dump, b.dump = keep(a.dump), keep(b.dump)
+	return a.diff(b)
 }
